@@ -23,6 +23,7 @@ Inductive verdict :=
 | Denied (member pkg : name)
 | NotFound
 | NotRecord
+| Unbounded                        (* nesting of calls between package functions beyond the bound *)
 | NotCallable                      (* a call with arguments through a path whose value is not a function *)
 | Malformed.
 
@@ -111,21 +112,28 @@ Definition spec_body_simple (h : heap) (params : list name) (body : fbody) (clos
   | BGet n => match lexical_lookup h frame clos n with Some (v, _) => Allowed h v | None => NotFound end
   | BSet n => let v := match args with a :: _ => a | [] => VNull end in
               Allowed (lexical_set h frame clos n v) v
+  | BClear n => Allowed (lexical_set h frame clos n VNull) VNull
   | BDot p => spec_path h frame clos p None
   | BDotSet p => let v := match args with a :: _ => a | [] => VNull end in
                  spec_path h frame clos p (Some v)
   | BDotCall _ _ => NotCallable
   end.
 
-Definition spec_body (h : heap) (params : list name) (body : fbody) (clos : list nat) (args : list val) : verdict :=
+(* a call through a dot path made inside a function reaches the member the path names *)
+Fixpoint spec_body (fuel : nat) (h : heap) (params : list name) (body : fbody) (clos : list nat) (args : list val)
+  {struct fuel} : verdict :=
   match body with
   | BDotCall p cargs =>
-    match spec_path h (zip_params params args) clos p None with
-    | Allowed _ (VFun _ params' body' clos') =>
-      if Nat.eqb (length params') (length cargs)
-      then spec_body_simple h params' body' clos' (map VInt cargs) else NotCallable
-    | Allowed _ v => match cargs with [] => Allowed h v | _ => NotCallable end
-    | d => d
+    match fuel with
+    | O => Unbounded
+    | S fuel' =>
+      match spec_path h (zip_params params args) clos p None with
+      | Allowed _ (VFun _ params' body' clos') =>
+        if Nat.eqb (length params') (length cargs)
+        then spec_body fuel' h params' body' clos' (map VInt cargs) else NotCallable
+      | Allowed _ v => match cargs with [] => Allowed h v | _ => NotCallable end
+      | d => d
+      end
     end
   | _ => spec_body_simple h params body clos args
   end.
@@ -133,7 +141,7 @@ Definition spec_body (h : heap) (params : list name) (body : fbody) (clos : list
 Definition spec_call (h : heap) (frame : list (name * val)) (p : list name) (args : list Z) : verdict :=
   match spec_path h frame [0%nat] p None with
   | Allowed _ (VFun _ params body clos) =>
-    if Nat.eqb (length params) (length args) then spec_body h params body clos (map VInt args) else NotCallable
+    if Nat.eqb (length params) (length args) then spec_body call_fuel h params body clos (map VInt args) else NotCallable
   | Allowed _ v => match args with [] => Allowed h v | _ => NotCallable end
   | d => d
   end.
@@ -143,10 +151,17 @@ Definition spec_op (h : heap) (o : op) : verdict :=
   | OpGet p => spec_path h [] [0%nat] p None
   | OpSet p z => spec_path h [] [0%nat] p (Some (VInt z))
   | OpCall p args => spec_call h [] p args
-  | OpCallVia param argsym p args =>
-    match stack_lookup h [0%nat] argsym with
+  | OpCallVia wname param argsym p args =>
+    let h1 := scope_set h 0 wname (VFun wname [param] (BDotCall p args) [0%nat]) in
+    match stack_lookup h1 [0%nat] argsym with
     | None => NotFound
-    | Some (v, _) => spec_call h [(param, v)] p args
+    | Some (v, _) => spec_call h1 [(param, v)] p args
+    end
+  | OpSetFrom target source =>
+    (* the right-hand side is read first (and must be readable); then the value is assigned *)
+    match spec_path h [] [0%nat] source None with
+    | Allowed _ v => spec_path h [] [0%nat] target (Some v)
+    | d => d
     end
   end.
 
